@@ -47,7 +47,8 @@ func NewEnv(n int) *Env { return &Env{Cb: make([]int64, n+1)} }
 
 var ErrCb = errors.New("verif: callback error (cause 11)")
 var ErrThrowIfEmpty = errors.New("verif: throw-if-empty (cause 12)")
-var ErrSrc = []error{errors.New("verif: source error 0"), errors.New("verif: source error 1"), errors.New("verif: source error 2"), errors.New("verif: source error 3")}
+var ErrSrc = []error{errors.New("verif: source error 0"), errors.New("verif: source error 1"), errors.New("verif: source error 2"), errors.New("verif: source error 3"),
+	errors.New("verif: source error 4"), errors.New("verif: source error 5"), errors.New("verif: source error 6")}
 var ErrFault = errors.New("verif: injected fault (cause 13)")
 
 // CauseOf projects an error to the cause ids of Ops.tla.
